@@ -227,11 +227,25 @@ def afterPost (b : Board) (w : UInt32) (now : Nat) : UInt32 :=
 
 /-! ### ownership (ptt/article.go) -/
 
-/-- ptt.isFileOwner -/
+/-- ptt.isFileOwner: owner field, length of the name, creation time IN THE NAME against the account's FirstLogin.
+It does not look at `Modified` (which every comment and edit moves). -/
 def isFileOwner (a : Article) (u : User) : Bool :=
   if !cstrEq a.entOwner u.id then false
   else if (cstr a.entName).length ≤ 3 then false
   else nameTime a.entName ≥ u.firstLogin
+
+/-- what an accepted comment (doAddRecommend) or edit (EditPost) does to the index entry as far as later decisions can
+see it: `ModifyDirLite(…, mtime, …)` stores the article file's mtime in `Modified` when it is positive; name, owner
+and mode stay. -/
+def touch (a : Article) (mtime : Int) : Article :=
+  { a with entModified := if mtime > 0 then mtime else a.entModified }
+
+/-- the rule a regression would follow if the author test took the entry's time stamp from `Modified` (falling back
+to the name when it is 0) — used only to state the witness of the broken rule. -/
+def isFileOwnerByModified (a : Article) (u : User) : Bool :=
+  if !cstrEq a.entOwner u.id then false
+  else if (cstr a.entName).length ≤ 3 then false
+  else (if a.entModified = 0 then nameTime a.entName else a.entModified) ≥ u.firstLogin
 
 /-! ### the four entry points: interpretation of the regenerated event lists -/
 
@@ -361,7 +375,7 @@ def plainBoard (name : List Nat) : Board :=
     friend := false, inBM := false, ban := none }
 
 def ownArticle : Article :=
-  { total0 := false, found := true, argName := artName, entName := artName, entOwner := idVerif, entMode := 0,
+  { total0 := false, found := true, argName := artName, entName := artName, entOwner := idVerif, entMode := 0, entModified := 0,
     fileExists := true }
 
 def fixedNow : Nat := 1600000000
